@@ -352,7 +352,49 @@ func boundaries(s string) []int {
 	return out
 }
 
+// c10TwoTables: the same filter text parsed for one symbol table and then for another which does not know its symbol (or
+// knows it with another type): the second parse is a verdict about the second table. The texts are parsed for the first
+// table at the very start of a case (and so among the first texts a worker process ever parses).
+func c10TwoTables(c *core.Ctx) {
+	a, b := memsym.NewTable(), memsym.NewTable()
+	a.Types["twa"], a.Types["twn"], a.Types["tws"] = ast.NodeTypeString, ast.NodeTypeInt64, ast.NodeTypeString
+	a.Sets["tws"] = true
+	b.Types["twn"], b.Types["tws"] = ast.NodeTypeString, ast.NodeTypeString // twa unknown, twn a string, tws a plain string
+	rowB := memsym.NewRow(b)
+	rowB.Vals["twn"], rowB.Vals["tws"] = "5", "x"
+	for _, tc := range []struct {
+		text       string
+		rejectForB bool
+	}{
+		{`twa = "x"`, true}, {`twa contains "x" or twn = 5`, true}, {`not (twa != "y") sort by twa`, true}, {`twn = 5 sort by twa desc limit 3`, true},
+		{`twn = 5`, false}, {`twn >= 3 and twn in [5, 7]`, false}, {`anyOf(tws) = "x"`, false}, {`isEmpty(tws) or count(tws) > 1`, false},
+	} {
+		func() {
+			defer func() {
+				if rec := recover(); rec != nil {
+					st := string(debug.Stack())
+					c.Violationf("C10 panic in "+c10PanicSite(st)+" (same text parsed for two symbol tables)", tc.text, "%v\n%s", rec, firstLines(st, 12))
+				}
+			}()
+			if _, err := ast.Parse(a, tc.text); err != nil {
+				c.Violationf("C10 two tables: sentence rejected for the table it is written for", tc.text, "%v", err)
+				return
+			}
+			q, err := ast.Parse(b, tc.text)
+			c.Eval()
+			c.Count("texts_parsed_for_two_symbol_tables", 1)
+			if tc.rejectForB && err == nil {
+				c.Violationf("C10 two tables: a filter over a symbol the second table does not know was accepted for it", tc.text, "parsed for a table that knows the symbol first, then for one that does not")
+			}
+			if err == nil {
+				_ = q.EvalBool(rowB) // must not panic, whatever the second table makes of the text
+			}
+		}()
+	}
+}
+
 func runC10(c *core.Ctx, idx int) {
+	c10TwoTables(c)
 	r := c.Rand()
 	tbl, rows := c10Table()
 	e := &c10Env{c: c, tbl: tbl, rows: rows}
@@ -620,7 +662,8 @@ func c10Bolt(c *core.Ctx, part int) {
 	}
 	for i := part; i < len(sentences); i += c10BoltCases {
 		for si, suf := range []string{"", " sort by s desc, ism", " sort by tags", " sort by owner.name", " skip 1 limit 2", " sort by flt skip -1 limit none",
-			" sort by anything", " sort by s, anything desc", " sort by meta.k", " sort by s, meta.a.b desc", " sort by meta", " sort by s.len", " sort by tags.x desc", " sort by s skip 100", " sort by ism desc skip 13 limit 1", " sort by flt skip 1", " skip 100", " sort by id desc skip 50 limit 2", " sort by t limit 0"} {
+			" sort by anything", " sort by s, anything desc", " sort by meta.k", " sort by s, meta.a.b desc", " sort by meta", " sort by s.len", " sort by tags.x desc", " sort by s skip 100", " sort by ism desc skip 13 limit 1", " sort by flt skip 1", " skip 100", " sort by id desc skip 50 limit 2", " sort by t limit 0",
+			" sort by s, ism, ibig, flt, b, t", " sort by grp desc, s, ism desc, ibig, flt desc, b, t desc, id", " sort by s, s, s, s, s, s desc limit 2"} {
 			if si > 0 && (i+si)%3 != 0 {
 				continue
 			}
